@@ -191,6 +191,7 @@ def mini7z(folders, crc="folder", header="raw", pack_crc=False):
 M3 = [("a.txt", b"hello world, hello"), ("b/c.bin", bytes(range(7, 47))), ("e", b"")]
 M2 = [("x.dat", b"\x00\x01\x02 damage me \xff\xfe"), ("y", b"yyyyyyyyyyyyyyyy")]
 M1 = [("z.z", b"zzzz-zzzz-zzzz")]
+MLONG = [("directory-with-a-long-name/and-a-member-with-a-long-name.txt", b"0123456789abcdef0123")]
 
 
 def symlink_archive(encoded=False):
@@ -231,6 +232,7 @@ def archive_specs(tier):
     py("ppmd/raw", M2, "ppmd", encoded=False)
     py("copy+aes/raw", M2, "copy+aes", encoded=False)
     py("lzma2+aes/encrypted", M1, "lzma2+aes", encoded=True, header_enc=True)
+    py("copy+aes/encrypted long name", MLONG, "copy+aes", encoded=True, header_enc=True)
     py("copy|lzma2|deflate/raw 3 folders", M1, "copy", encoded=False, sessions=[(M2[:1], "lzma2"), ([("q", b"qqqqqqqq")], "deflate")])
     S.append({"label": "symlink copy/raw", "kind": "symlink", "path": True})
     S.append({"label": "mini copy folder-crc/raw 2 folders", "kind": "mini", "folders": [("copy", M1), ("copy", M2[:1])],
@@ -472,11 +474,10 @@ def batch_worker(arg):
     t0 = time.time()
     out = []
     try:
-        if pw is not None:       # warm the key cache (inherited by the forked children)
-            try:
-                probe_image(base, pw, tmp, False)
-            except BaseException:  # noqa
-                pass
+        try:       # warm lazy imports / caches / the AES key cache (inherited by the forked children)
+            probe_image(base, pw, tmp, arg.get("path", False))
+        except BaseException:  # noqa
+            pass
         for m in arg["muts"]:
             if time.time() - t0 > arg.get("budget", 1e9):
                 out.append({"fatal": "skipped"})
@@ -556,7 +557,6 @@ def judge(o, pristine, want_path):
         for n, ln, h, head in ex[1]:
             if n not in ok_map:
                 viol.append(("wrong-name", "extractall(factory) delivered %r (%d bytes), not a member of the original" % (n, ln)))
-                bad_extract = True
             elif ok_map[n] != (ln, h):
                 viol.append(("wrong-content", "extractall(factory) delivered %r with %d bytes %s.., original has %d bytes" % (
                     n, ln, head, ok_map[n][0])))
@@ -569,7 +569,6 @@ def judge(o, pristine, want_path):
                 kind = "symlink-target" if n.startswith("L:") else "content"
                 if n not in okp:
                     viol.append(("wrong-name-path", "extractall(path) produced %r, not in the original tree" % n))
-                    bad_extract = True
                 elif okp[n] != (ln, h):
                     viol.append(("wrong-%s-path" % kind, "extractall(path) produced %r = %s.. (%d bytes), original %d bytes" % (
                         n, head, ln, okp[n][0])))
@@ -593,10 +592,13 @@ def judge(o, pristine, want_path):
 
 
 def sig_of(e):
-    """exception signature with the numbers removed"""
+    """exception signature: class + the leading words of the message (numbers, byte strings, names removed)"""
     import re
     cls, msg = e[0], (e[1] if len(e) > 1 else "")
-    return cls + ":" + re.sub(r"[0-9]+|b'[^']*'|0x[0-9a-f]+", "#", msg)[:40]
+    if cls == "CrcError":
+        return "CrcError(member)" if not msg.endswith("None") else "CrcError(folder)"
+    msg = re.sub(r"""b?'[^']*'|b?"[^"]*"|0x[0-9a-f]+|[0-9]+""", "#", msg)
+    return cls + ":" + " ".join(msg.split()[:4])[:32]
 
 
 # ====================================================================== exploration driver
@@ -615,11 +617,12 @@ def explore(ctx):
         regs, hdrmode = layout(base, pw)
         muts = mutation_set(base, regs, rng, tier, spec.get("large", False))
         info.append({"spec": spec, "base": base, "pw": pw, "regs": regs, "hdrmode": hdrmode, "n": len(muts)})
+        random.Random(ctx["seed"] + si).shuffle(muts)      # spread the slow cases (hangs) over the batches
         muts = [None] + muts
-        bs = 150 if pw is None else 100
+        bs = 120 if pw is None else 100
         for i in range(0, len(muts), bs):
             jobs.append((si, muts[i:i + bs]))
-    timeout = 4.0
+    timeout = 2.0 if tier == "quick" else 4.0
     table = {}
     viols = {}
     fatal = {}
@@ -645,7 +648,7 @@ def explore(ctx):
         rs = results.get(si, [])
         pristine = None
         for m, o in rs:
-            if m is None:
+            if m is None and pristine is None:
                 pristine = o
         lab = spec["label"]
         if pristine is None or "fatal" in pristine or pristine.get("open") != "ok" or pristine["extract"][0] != "ok" \
